@@ -23,7 +23,7 @@ def need_env(cfg):
         env['ASAN_OPTIONS'] = 'detect_leaks=0:abort_on_error=1:halt_on_error=1:allocator_may_return_null=1:' \
                               'detect_stack_use_after_return=0:handle_segv=1:symbolize=1:malloc_context_size=8:' \
                               'max_redzone=256:quarantine_size_mb=64:print_legend=0:print_summary=1'
-        env['ASAN_SYMBOLIZER_PATH'] = '/usr/bin/llvm-symbolizer-14'
+        env['ASAN_SYMBOLIZER_PATH'] = vbuild.symbolizer()
         os.execve(sys.executable, [sys.executable] + sys.argv, env)
 
 def filler(tag, n, seed=None):
@@ -265,6 +265,31 @@ def pmap(fn, cases, nproc=None, case_timeout=120, on_result=None):
         pass
     return results
 
+# ------------------------------------------------------------------------------------------ sub-explorations
+def run_sub(prop, tier, name, env=None, prefix='sub'):
+    """one sub-exploration (a configuration that needs its own process: sanitizer runtime, build configuration) through
+    `vcheck <prop> --sub <name> --out <file>`; returns (result dict, None) or (None, what happened).  A sub-exploration that leaves no
+    result (killed for memory, interpreter crash) is repeated with half and then a quarter of the workers; the caller must hand a final
+    failure to Check.harness_error() -- a part that did not run is never reported as a part that held."""
+    os.makedirs(vbuild.BUILD, exist_ok=True)
+    last = ''
+    for attempt, div in enumerate((1, 2, 4)):
+        fd, out = tempfile.mkstemp(prefix=prefix, dir=vbuild.BUILD); os.close(fd)
+        e = dict(os.environ if env is None else env)
+        if div > 1:
+            e['VERIF_NPROC'] = str(max(1, NPROC // div))
+        r = subprocess.run([sys.executable, os.path.join(VERIF, 'vcheck'), prop, '--tier', tier, '--sub', name, '--out', out], env=e,
+                           stdout=subprocess.PIPE, stderr=subprocess.STDOUT, text=True)
+        try:
+            return json.load(open(out)), None
+        except Exception:
+            last = 'exit status %s; output: %s' % (r.returncode, r.stdout[-1200:])
+            sys.stderr.write('sub-exploration %s/%s left no result (attempt %d, %s)\n' % (prop, name, attempt + 1, last[:300]))
+        finally:
+            try: os.unlink(out)
+            except OSError: pass
+    return None, last
+
 # ------------------------------------------------------------------------------------------ known findings
 def load_known():
     known, fixed = {}, []
@@ -294,6 +319,12 @@ class Check:
         self.outcomes = {}
         self.known, _ = load_known()
         self.capped = []
+        self.harness_errors = []
+
+    def harness_error(self, what):
+        """a part of the exploration could not be executed at all (no result after the retries of run_sub): the run proves nothing about
+        that part, so the check must not exit 0; it is not a VIOLATION either (nothing was observed about the library): exit code 2"""
+        self.harness_errors.append(what); self.cov['exhaustive'] = False
 
     def expired(self):
         return self.deadline is not None and time.time() > self.deadline
@@ -371,6 +402,12 @@ class Check:
         cov['outcomes'] = dict(sorted(self.outcomes.items(), key=lambda kv: -kv[1])[:40])
         cov['capped'] = self.capped
         cov['observations'] = self.observations
+        if self.harness_errors:
+            cov['harness_errors'] = [h[:600] for h in self.harness_errors]
+            for h in self.harness_errors:
+                print('HARNESS-ERROR property=%s %s' % (self.prop, h[:600].replace('\n', ' | ')))
+            if rc == 0:
+                rc = 2
         if extra:
             cov.update(extra)
         if not cov['samples']:
